@@ -73,9 +73,13 @@ Section W.
   Definition item_ws (g : config) (nd : node) (i : item) : list wr :=
     match i with
     | IEv e => snd (process exec nd e)
-    | IRestart => boot_ws g (n_disk nd)
-    | ICrash e k => let ws := snd (process exec nd e) in firstn k ws ++ boot_ws g (crash_after k (n_disk nd) ws)
-    | ICrashBoot k => let bw := boot_ws g (n_disk nd) in firstn k bw ++ boot_ws g (crash_after k (n_disk nd) bw)
+    | IRestart => snd (boot exec g (n_disk nd) (restart_files nd) (n_log nd))
+    | ICrash e k =>
+        let ws := snd (process exec nd e) in
+        firstn k ws ++ snd (boot exec g (crash_after k (n_disk nd) ws) (n_files nd) (n_log nd))
+    | ICrashBoot k =>
+        let bw := snd (boot exec g (n_disk nd) (n_files nd) (n_log nd)) in
+        firstn k bw ++ snd (boot exec g (crash_after k (n_disk nd) bw) (n_files nd) (n_log nd))
     end.
 
   Fixpoint trace (g : config) (nd : node) (h : list item) : list (node * list wr) :=
@@ -123,8 +127,8 @@ Definition block_agrees (m : img) (e : N * option (sheader * list tx)) : bool :=
 Definition check_case (c : scase) : list N :=
   let ex := exec_of (sc_exec c) in
   let g := sc_cfg c in
-  let nd0 := init g in
-  let tr := (nd0, boot_ws g []) :: trace ex g nd0 (sc_hist c) in
+  let nd0 := init ex g in
+  let tr := (nd0, snd (boot ex g [] empty_cache [])) :: trace ex g nd0 (sc_hist c) in
   let final := last (map fst tr) nd0 in
   (if list_eqb obs_agrees (map fst tr) (sc_obs c) then [] else [1]) ++
   (if list_eqb (list_eqb wshape_eqb) (map (fun x => map write_shape (snd x)) tr) (sc_ws c) then [] else [2]) ++
